@@ -51,15 +51,15 @@ Print Assumptions skip_flag_consistent.
 (* C11 6.10.3.1.  (1) process_replacement asks for the macro expansion of an argument exactly for a parameter
    that is neither preceded by # nor an operand of ##; for the others the argument goes in as it is
    (stringified / pasted). *)
-Theorem param_substitution_cases : forall ps prev rest' shp args buf s i,
+Theorem param_substitution_cases : forall old ps prev rest' shp args buf s i,
   find_param ps s = Some i ->
-  proc_repl ps prev (TIdent false s :: rest') shp args buf =
+  proc_repl old ps prev (TIdent false s :: rest') shp args buf =
   match shp with
-  | Some p => proc_repl ps (TIdent false s :: prev) rest' None (set_nth i (strip_ws1 (nth i args [])) args)
-                        (add_token (firstn p buf) (stringify_toks (strip_ws1 (nth i args []))))
+  | Some p => proc_repl old ps (TIdent false s :: prev) rest' None (set_nth i (strip_ws old (nth i args [])) args)
+                        (add_token (firstn p buf) (stringify_toks old (strip_ws old (nth i args []))))
   | None => if paste_operand prev rest' then
-              if empty_arg (nth i args []) then proc_repl ps (TIdent false s :: prev) rest' None args (add_token buf TPlm)
-              else proc_repl ps (TIdent false s :: prev) rest' None args (add_tokens buf (nth i args []))
+              if empty_arg (nth i args []) then proc_repl old ps (TIdent false s :: prev) rest' None args (add_token buf TPlm)
+              else proc_repl old ps (TIdent false s :: prev) rest' None args (add_tokens buf (nth i args []))
             else PrArg i (TIdent false s :: prev) rest' args buf
   end.
 Proof. exact proc_repl_param. Qed.
@@ -78,8 +78,8 @@ Theorem arg_fully_expanded_before_substitution : forall q d fuel arg ig sF rest 
     steps q d (S n) (mkst (TBoa :: arg ++ TEoa :: rest) out0 (mc :: cs) ig nl0)
     = Some (mkst (TEoa :: rest) (out sF ++ TBoa :: out0) (mc :: cs) (ign sF) (nl sF))
     /\ step q d (mkst (TEoa :: rest) (out sF ++ TBoa :: out0) (mc :: cs) (ign sF) (nl sF))
-       = run_repl rest out0 (mkmc (mc_name mc) (mc_params mc) (mc_prev mc) (mc_rest mc) (mc_args mc)
-                                  (add_tokens (mc_buf mc) (rev (out sF)))) cs (ign sF).
+       = run_repl q rest out0 (mkmc (mc_name mc) (mc_params mc) (mc_prev mc) (mc_rest mc) (mc_args mc)
+                                    (add_tokens (mc_buf mc) (rev (out sF)))) cs (ign sF).
 Proof. exact arg_expanded_in_isolation. Qed.
 Print Assumptions arg_fully_expanded_before_substitution.
 
@@ -109,10 +109,10 @@ Theorem painted_name_never_expanded : forall q d o cs ig n s r,
 Proof. exact painted_not_expanded_lemma. Qed.
 Print Assumptions painted_name_never_expanded.
 
-(* # (C11 6.10.3.2p2): one closed string literal that spells the argument *)
-Theorem stringify_wellformed_and_spells_argument : forall ts, forallb strfy_ok ts = true ->
-  exists body, stringify_toks ts = TTok KStr (dq :: body ++ [dq]) /\
-               str_closed body = true /\ unesc body = flat_map plain_piece ts.
+(* # (C11 6.10.3.2p2): one closed string literal that spells the argument, every run of white space as one space *)
+Theorem stringify_wellformed_and_spells_argument : forall old ts, forallb strfy_ok ts = true ->
+  exists body, stringify_toks old ts = TTok KStr (dq :: body ++ [dq]) /\
+               str_closed body = true /\ unesc body = str_plain old false ts.
 Proof. exact stringify_spec. Qed.
 Print Assumptions stringify_wellformed_and_spells_argument.
 
@@ -121,32 +121,44 @@ Print Assumptions stringify_wellformed_and_spells_argument.
 Theorem paste_spelling : forall a b t, token_concat a b = Some t -> spell t = spell a ++ spell b.
 Proof. exact token_concat_spell. Qed.
 Theorem paste_tokens : forall a b, ord a = true -> ord b = true ->
-  do_concat [a; TRDblNo; b] = match token_concat a b with Some t => Some [t] | None => None end.
+  do_concat false [a; TRDblNo; b] = match token_concat a b with Some t => Some [t] | None => None end.
 Proof. exact paste_two. Qed.
-Theorem paste_placemarker_right : forall a, ord a = true -> do_concat [a; TRDblNo; TPlm] = Some [a].
+Theorem paste_placemarker_right : forall a, ord a = true -> do_concat false [a; TRDblNo; TPlm] = Some [a].
 Proof. exact paste_right_empty. Qed.
-Theorem paste_placemarker_left : forall b, ord b = true -> do_concat [TPlm; TRDblNo; b] = Some [b].
+Theorem paste_placemarker_left : forall b, ord b = true -> do_concat false [TPlm; TRDblNo; b] = Some [b].
 Proof. exact paste_left_empty. Qed.
-Theorem paste_leaves_no_operator : forall l l', do_concat l = Some l' ->
+Theorem paste_leaves_no_operator : forall old l l', do_concat old l = Some l' ->
   forallb (fun t => negb (is_rdblno t) && negb (is_plm t)) l' = true.
 Proof. exact do_concat_no_paste_left. Qed.
-Theorem no_paste_no_change : forall l, forallb (fun t => negb (is_rdblno t) && negb (is_plm t)) l = true -> do_concat l = Some l.
+Theorem no_paste_no_change : forall old l, forallb (fun t => negb (is_rdblno t) && negb (is_plm t)) l = true -> do_concat old l = Some l.
 Proof. exact do_concat_no_paste. Qed.
 Print Assumptions paste_leaves_no_operator.
 
-(* the behaviours repaired by fixes/C09-6 and C09-7, as quirks of the model: witnesses *)
+(* the behaviours repaired by fixes/C09-6, C09-7 and C09-8, as quirks of the model: witnesses *)
 Definition d67 : defs := lookup
   [ (sp "F", mkmacro (Some [sp "x"]) [TTok KPunct (sp "["); TIdent false (sp "x"); TTok KPunct (sp "]")]);
     (sp "P", mkmacro None [TIdent false (sp "F"); TTok KPunct (sp "("); TTok KNum (sp "1")]);
     (sp "Q", mkmacro None [TIdent false (sp "P")]);
-    (sp "Z", mkmacro (Some []) [TIdent false (sp "z")]) ]%string.
+    (sp "Z", mkmacro (Some []) [TIdent false (sp "z")]);
+    (sp "S", mkmacro (Some [sp "x"]) [TTok KPunct (sp "#"); TIdent false (sp "x")]);
+    (sp "XS", mkmacro (Some [sp "x"]) [TIdent false (sp "S"); TTok KPunct (sp "("); TIdent false (sp "x"); TTok KPunct (sp ")")]);
+    (sp "M", mkmacro (Some [sp "x"]) [TIdent false (sp "a"); TSp; TRDblNo; TSp; TIdent false (sp "x"); TSp; TIdent false (sp "b")]) ]%string.
 Theorem prefix_find_args_single_eor_refuted :
-  expand_fn (mkq true false) d67 100 [TIdent false (sp "Q"); TSp; TTok KPunct (sp ")")] = Err 11 /\
+  expand_fn (mkq true false false) d67 100 [TIdent false (sp "Q"); TSp; TTok KPunct (sp ")")] = Err 11 /\
   expand_fn fixed d67 100 [TIdent false (sp "Q"); TSp; TTok KPunct (sp ")")]
   = Out [TTok KPunct (sp "["); TTok KNum (sp "1"); TSp; TTok KPunct (sp "]")].
 Proof. split; vm_compute; reflexivity. Qed.
 Theorem prefix_newline_in_empty_call_refuted :
-  expand_fn (mkq false true) d67 100 [TIdent false (sp "Z"); TTok KPunct (sp "("); TNl; TTok KPunct (sp ")")] = Err 15 /\
+  expand_fn (mkq false true false) d67 100 [TIdent false (sp "Z"); TTok KPunct (sp "("); TNl; TTok KPunct (sp ")")] = Err 15 /\
   expand_fn fixed d67 100 [TIdent false (sp "Z"); TTok KPunct (sp "("); TNl; TTok KPunct (sp ")")] = Out [TIdent false (sp "z")].
+Proof. split; vm_compute; reflexivity. Qed.
+(* `#define M(x) a ## x b`, XS(M()): the white space between a and b was lost *)
+Theorem prefix_placemarker_white_space_refuted :
+  expand_fn (mkq false false true) d67 100
+    [TIdent false (sp "XS"); TTok KPunct (sp "("); TIdent false (sp "M"); TTok KPunct (sp "("); TTok KPunct (sp ")"); TTok KPunct (sp ")")]
+  = Out [TTok KStr (sp """ab""")] /\
+  expand_fn fixed d67 100
+    [TIdent false (sp "XS"); TTok KPunct (sp "("); TIdent false (sp "M"); TTok KPunct (sp "("); TTok KPunct (sp ")"); TTok KPunct (sp ")")]
+  = Out [TTok KStr (sp """a b""")].
 Proof. split; vm_compute; reflexivity. Qed.
 Print Assumptions prefix_find_args_single_eor_refuted.
